@@ -33,6 +33,12 @@ impl<K: Eq, V> Default for HashMap<K, V> {
     }
 }
 
+impl<K, V> HashMap<K, V> {
+    pub const fn new_const() -> Self {
+        HashMap { e: [const { None }; CAP] }
+    }
+}
+
 impl<K: Eq, V> HashMap<K, V> {
     pub fn new() -> Self {
         HashMap { e: [const { None }; CAP] }
